@@ -1,4 +1,6 @@
 import Proofs.C05TypeStr
+import Proofs.C05Frame
+import Proofs.C05Rows
 /-!
 # C05 — no bytes from the network can crash the application
 
@@ -87,5 +89,170 @@ KF-C05-5. No bound theorem is claimed for apacheToCassandraType. -/
 theorem C05_cex_typestring_alloc :
     (apacheToCassandraType [99,44,117,44,115,44,116,44,111,44,109]).length = 331 ∧
     (apacheToCassandraType [99,44,117,44,115,44,116,44,111,44,109,44,99,44,117]).length = 2232 := by decide +kernel
+
+/-! ## 4. response frames (frame.go parseFrame and the primitive readers 1771-1937)
+
+FULL PROPERTY (does NOT hold for the unchanged code):
+  `∀ proto resp flags op body, (parseFrame false proto resp flags op body).crashSite = none`
+Known bad: readInetAdressOnly slices `size` (4/16) bytes behind `len(f.buf) < 1` (KF-C05-6, EVENT
+STATUS_CHANGE / TOPOLOGY_CHANGE on a bare goroutine and the v5 error map); parsePreparedMetadata
+`make([]int, pkeyCount)` with a negative count (KF-C05-7). -/
+section frames
+open FrameCrash
+
+/-- the decidable predicate characterising the known-bad frames: the unchanged parser reaches one of
+the two weak guards with too few bytes / a negative count (`Site.known`) -/
+def frameKnownBad (proto : Nat) (resp : Bool) (flags op : Nat) (body : Bytes) : Bool :=
+  match (parseFrame false proto resp flags op body).crashSite with
+  | some s => s.known
+  | none => false
+
+/-- the generic lemma: a primitive reader whose length check is at least what it slices cannot
+crash on any buffer; every fixed-size primitive of the table satisfies it -/
+theorem C05_prim_guard_ge_need (site : FrameCrash.Site) (guard need : Nat) (h : need ≤ guard) (st : St) :
+    (take site guard need st).crashSite = none := C05Frame.take_noCrash site guard need h st
+
+theorem C05_prim_table : ∀ p ∈ primTable, p.2.2 ≤ p.2.1 := C05Frame.primTable_ok
+
+/-- PARTIAL: for every protocol version, direction bit, header flags, opcode and body, parseFrame's
+only run-time panics are the two known sites. The content: every OTHER read of the parser (all
+primitives, all error codes, result kinds, metadata, type descriptions of any nesting, schema
+changes, events, SUPPORTED, AUTH frames, tracing / warning / custom-payload prefixes) is guarded, and
+the type-description recursion terminates (fuel |body|+1 is never exhausted). -/
+theorem C05_frame_total_partial (proto : Nat) (resp : Bool) (flags op : Nat) (body : Bytes)
+    (h : frameKnownBad proto resp flags op body = false) :
+    (parseFrame false proto resp flags op body).crashSite = none := by
+  cases hc : (parseFrame false proto resp flags op body).crashSite with
+  | none => rfl
+  | some s =>
+    have hk := (C05Frame.parseFrame_known false proto resp flags op body s hc).1
+    simp [frameKnownBad, hc, hk] at h
+
+theorem C05_frame_crash_sites (proto : Nat) (resp : Bool) (flags op : Nat) (body : Bytes) (s : FrameCrash.Site)
+    (h : (parseFrame false proto resp flags op body).crashSite = some s) : s.known = true :=
+  (C05Frame.parseFrame_known false proto resp flags op body s h).1
+
+/-- D6: EVENT STATUS_CHANGE "UP", inet size 16 with 2 bytes left (protocol 4) -/
+theorem C05_cex_frame_event_short_inet :
+    (parseFrame false 4 true 0 0x0C
+      [0, 13, 83, 84, 65, 84, 85, 83, 95, 67, 72, 65, 78, 71, 69, 0, 2, 85, 80, 16, 254, 128]).crashSite
+      = some .inetBody := by decide +kernel
+
+/-- the same site through TOPOLOGY_CHANGE with a 4-byte address and 3 bytes left -/
+theorem C05_cex_frame_event_short_inet4 :
+    (parseFrame false 3 true 0 0x0C
+      [0, 15, 84, 79, 80, 79, 76, 79, 71, 89, 95, 67, 72, 65, 78, 71, 69, 0, 8, 78, 69, 87, 95, 78, 79, 68, 69, 4, 10, 0, 0]).crashSite
+      = some .inetBody := by decide +kernel
+
+/-- D7: RESULT/PREPARED (protocol 4) with partition-key count −1 -/
+theorem C05_cex_frame_prepared_negative_pk :
+    (parseFrame false 4 true 0 0x08
+      [0, 0, 0, 4, 0, 2, 1, 2, 0, 0, 0, 4, 0, 0, 0, 0, 255, 255, 255, 255]).crashSite = some .pkeysMake := by decide +kernel
+
+example : frameKnownBad 4 true 0 0x02 [] = false := by decide +kernel
+
+/-! ### allocation -/
+
+/-- D7 (allocation): an 18-byte PREPARED body makes parsePreparedMetadata allocate 8·2^24 bytes
+(128 MiB; 16 GiB for count 2^31−1) before it finds the body exhausted (KF-C05-8) -/
+theorem C05_cex_alloc_pk_count :
+    (parseFrame false 4 true 0 0x08 [0, 0, 0, 4, 0, 0, 0, 0, 0, 4, 0, 0, 0, 0, 1, 0, 0, 0]).allocated = 134217728 := by
+  decide +kernel
+
+/-- nested tuple descriptions: each level costs 4 body bytes and allocates 16·65535 bytes, all
+levels alive at once (KF-C05-9; a 4 KiB body → 1 GiB) -/
+theorem C05_cex_alloc_nested_tuples :
+    (parseFrame false 4 true 0 0x08
+      [0, 0, 0, 2, 0, 0, 0, 1, 0, 0, 0, 1, 0, 1, 107, 0, 1, 116, 0, 1, 99,
+       0, 49, 255, 255, 0, 49, 255, 255, 0, 49, 255, 255]).allocated ≥ 3 * (16 * 65535) := by
+  decide +kernel
+
+/-- readFrame: PARTIAL allocation bound — when the announced body arrives, what was allocated for
+it is at most its size; in every case at most maxFrameSize -/
+theorem C05_alloc_bound_partial (length : Int) (flags : Nat) (avail : Bytes) :
+    (∀ body a, readFrame length flags avail = .ok body a → a ≤ avail.length) ∧
+    (∀ a, readFrame length flags avail = .err a → a ≤ maxFrameSize) := by
+  unfold readFrame
+  simp only [maxFrameSize, defaultBufSize]
+  by_cases h1 : length < 0
+  · simp [h1]
+  · by_cases h2 : length.toNat > 268435456
+    · simp [h1, h2]
+    · by_cases h3 : avail.length < length.toNat
+      · simp only [h1, h2, h3, if_true, if_false]
+        constructor
+        · intro body a h; cases h
+        · intro a h; cases h; (by_cases h5 : 128 ≥ length.toNat <;> simp [h5] <;> omega)
+      · by_cases h4 : bit flags 0 = true
+        · simp only [h1, h2, h3, h4, if_true, if_false]
+          constructor
+          · intro body a h; cases h
+          · intro a h; cases h; (by_cases h5 : 128 ≥ length.toNat <;> simp [h5] <;> omega)
+        · simp only [h1, h2, h3, h4, if_false]
+          constructor
+          · intro body a h; cases h; (by_cases h5 : 128 ≥ length.toNat <;> simp [h5] <;> omega)
+          · intro a h; cases h
+
+/-- D15: the FULL bound (allocation ≤ a·received + b) fails: a 9-byte header announcing 2^28 bytes
+makes readFrame allocate 256 MiB before a single body byte has arrived (KF-C05-10) -/
+theorem C05_cex_alloc_header :
+    readHeader [132, 0, 0, 1, 8, 16, 0, 0, 0] = .ok 132 0 1 8 268435456 ∧
+    readFrame 268435456 0 [] = .err 268435456 := by decide +kernel
+
+end frames
+
+/-! ## 3. row iteration (session.go Iter.Scan / readColumn / scanColumn)
+
+FULL PROPERTY (does NOT hold): `∀ proto flags body o, iterate false proto flags body = some o → o.crashSite = none`
+Known bad: fewer than 4 bytes left when a cell length is read → framer.readInt `panic(error)` escapes
+Iter.Scan (KF-C05-11); a column list ending in 0-element tuples → `dest[0]` on an empty slice
+(KF-C05-12); a tuple cell whose field length exceeds the cell → marshal.go readBytes (KF-C05-13). -/
+section rows
+open FrameCrash RowsCrash
+
+def rowsKnownBad (proto flags : Nat) (body : Bytes) : Bool :=
+  match iterate false proto flags body with
+  | some o => (match o.crashSite with | some s => s.known | none => false)
+  | none => false
+
+/-- PARTIAL: iterating ANY result body (every row/column count, every cell length, every
+truncation) panics only at the three known sites: `dest[i:]` / `dest[:count]` are always in bounds
+(the destination count is exactly what the parsed metadata adds up to). -/
+theorem C05_rows_total_partial (proto flags : Nat) (body : Bytes) (o : ROut)
+    (ho : iterate false proto flags body = some o) (h : rowsKnownBad proto flags body = false) :
+    o.crashSite = none := by
+  cases hc : o.crashSite with
+  | none => rfl
+  | some s =>
+    unfold iterate at ho
+    split at ho
+    · rename_i m n st hp
+      cases ho
+      have hm := C05Rows.parsed_meta_ok false proto true flags 8 body m n st hp
+      have hk := (C05Rows.scanAll_known false m hm n st.buf s hc).1
+      simp [rowsKnownBad, iterate, hp, hc, hk] at h
+    · cases ho
+
+/-- D12: one int column, 2 rows announced, body ends after the first cell -/
+theorem C05_cex_rows_short_body :
+    iterate false 4 0 [0, 0, 0, 2, 0, 0, 0, 1, 0, 0, 0, 1, 0, 1, 107, 0, 1, 116, 0, 1, 99, 0, 9, 0, 0, 0, 2, 0, 0, 0, 1, 7]
+      = some (.crash .readIntShort) := by decide +kernel
+
+/-- a single column of type tuple<> (no elements): Scan indexes an empty destination list -/
+theorem C05_cex_rows_empty_tuple :
+    iterate false 4 0 [0, 0, 0, 2, 0, 0, 0, 1, 0, 0, 0, 1, 0, 1, 107, 0, 1, 116, 0, 1, 99, 0, 49, 0, 0, 0, 0, 0, 1, 255, 255, 255, 255]
+      = some (.crash .destIndex) := by decide +kernel
+
+/-- D12: tuple<int,int> cell of 5 bytes whose first field announces 9 bytes -/
+theorem C05_cex_rows_tuple_field :
+    iterate false 4 0 [0, 0, 0, 2, 0, 0, 0, 1, 0, 0, 0, 1, 0, 1, 107, 0, 1, 116, 0, 1, 99, 0, 49, 0, 2, 0, 9, 0, 9,
+                       0, 0, 0, 1, 0, 0, 0, 5, 0, 0, 0, 9, 7]
+      = some (.crash .tupleField) := by decide +kernel
+
+/-- non-vacuity: the same frame with both cells present iterates two rows -/
+example : iterate false 4 0 [0, 0, 0, 2, 0, 0, 0, 1, 0, 0, 0, 1, 0, 1, 107, 0, 1, 116, 0, 1, 99, 0, 9, 0, 0, 0, 2,
+                             0, 0, 0, 1, 7, 255, 255, 255, 255] = some (.ok 2) := by decide +kernel
+
+end rows
 
 end C05
